@@ -3,6 +3,7 @@ package ledgerrig
 import (
 	"fmt"
 	"math/big"
+	"strings"
 
 	"github.com/lianxiangcloud/linkchain/libs/common"
 	"github.com/lianxiangcloud/linkchain/libs/cryptonote/ringct"
@@ -37,6 +38,13 @@ type tamper struct {
 	// dests are what the output commitments and the range proof are made from.
 	// false = not applicable to this transaction.
 	pre func(rs *rigState, tt *kernel.Tape, tx *types.UTXOTransaction, dests []types.DestEntry) bool
+	// forge (RingCT stage built by hand, then signed): the per-output and
+	// per-input lists do not match the outputs and inputs; see txgen.RctForge.
+	forge func(tt *kernel.Tape) txgen.RctForge
+	// weak: the shape touches no amount and no proof (the statement does not
+	// demand refusal): it must not panic, and if a block carrying it is
+	// accepted, committing that block must leave the total supply unchanged.
+	weak bool
 	// lkcOnly: invalid by construction only when the fee is part of the
 	// commitment equation (coin); token transactions pay the fee from an account.
 	lkcOnly bool
@@ -346,6 +354,86 @@ var preCatalogue = []tamper{
 	}},
 }
 
+// surplusUnits draws X (commitment units): small, medium or close to 2^62.
+func surplusUnits(tt *kernel.Tape) *big.Int {
+	switch tt.Pick(2, 3, 2) {
+	case 0:
+		return big.NewInt(int64(1 + tt.Int(1000)))
+	case 1:
+		return new(big.Int).SetUint64(1 + tt.Uint64()%(1<<40))
+	default:
+		return new(big.Int).SetUint64(1<<62 - tt.Uint64()%(1<<30))
+	}
+}
+
+func neg(v *big.Int) *big.Int { return new(big.Int).Neg(v) }
+
+// Variants with a hand-built RingCT stage: the lists that carry the balance
+// and its proofs (OutPk, range proof, pseudo-outs) have more or fewer entries
+// than there are outputs / inputs. The commitment equation HOLDS in all the
+// strong ones (blinding factors are re-derived), and every signature is made
+// afterwards; what is wrong is that a commitment taking part in the equation
+// belongs to no output or no spent input, or that an output's amount is not
+// range-proven: a hidden output worth X more than was paid in appears.
+var forgeShapes = []struct {
+	name  string
+	weak  bool
+	forge func(tt *kernel.Tape) txgen.RctForge
+}{
+	{"surplus-output-commitment-negative", false, func(tt *kernel.Tape) txgen.RctForge {
+		x := surplusUnits(tt)
+		return txgen.RctForge{InflateUnits: x, SurplusOut: []*big.Int{neg(x)}}
+	}},
+	{"surplus-output-commitments-split-negative", false, func(tt *kernel.Tape) txgen.RctForge {
+		x := surplusUnits(tt)
+		a := new(big.Int).Div(x, big.NewInt(int64(2+tt.Int(5))))
+		f := txgen.RctForge{InflateUnits: x, SurplusOut: []*big.Int{neg(a), neg(new(big.Int).Sub(x, a))}}
+		if tt.Bool(1, 3) {
+			f.SurplusOut = append(f.SurplusOut, big.NewInt(0))
+		}
+		return f
+	}},
+	{"surplus-pseudo-out", false, func(tt *kernel.Tape) txgen.RctForge {
+		x := surplusUnits(tt)
+		return txgen.RctForge{InflateUnits: x, SurplusIn: []*big.Int{x}}
+	}},
+	{"surplus-pseudo-outs-split", false, func(tt *kernel.Tape) txgen.RctForge {
+		x := surplusUnits(tt)
+		a := new(big.Int).Div(x, big.NewInt(int64(2+tt.Int(5))))
+		return txgen.RctForge{InflateUnits: x, SurplusIn: []*big.Int{a, new(big.Int).Sub(x, a)}}
+	}},
+	{"surplus-pseudo-out-and-output-commitment", false, func(tt *kernel.Tape) txgen.RctForge {
+		x, y := surplusUnits(tt), surplusUnits(tt)
+		return txgen.RctForge{InflateUnits: x, SurplusIn: []*big.Int{new(big.Int).Add(x, y)}, SurplusOut: []*big.Int{y}}
+	}},
+	{"last-output-negative-not-range-proven", false, func(tt *kernel.Tape) txgen.RctForge {
+		// far above any amount the workload hides: the last output commits to a negative amount
+		x := new(big.Int).SetUint64(1<<62 - tt.Uint64()%(1<<30))
+		return txgen.RctForge{InflateUnits: x, Unproven: 1, UnprovenDelta: neg(x)}
+	}},
+	{"last-output-not-range-proven", false, func(tt *kernel.Tape) txgen.RctForge {
+		return txgen.RctForge{Unproven: 1} // honest amounts, but the proof stops one output short
+	}},
+	{"last-output-without-commitment", false, func(tt *kernel.Tape) txgen.RctForge {
+		return txgen.RctForge{DropLastOutPk: true}
+	}},
+	{"encrypted-amounts-surplus", true, func(tt *kernel.Tape) txgen.RctForge { return txgen.RctForge{EcdhDelta: 1 + tt.Int(2)} }},
+	{"encrypted-amounts-deficit", true, func(tt *kernel.Tape) txgen.RctForge { return txgen.RctForge{EcdhDelta: -1} }},
+	{"additional-keys-surplus", true, func(tt *kernel.Tape) txgen.RctForge { return txgen.RctForge{AddKeysDelta: 1 + tt.Int(2)} }},
+	{"additional-keys-deficit", true, func(tt *kernel.Tape) txgen.RctForge { return txgen.RctForge{AddKeysDelta: -1} }},
+	{"range-proof-entry-duplicated", true, func(tt *kernel.Tape) txgen.RctForge { return txgen.RctForge{ProofCopies: 1} }},
+}
+
+// forgeCatalogue: every shape for account-input and for hidden-input transactions.
+var forgeCatalogue = func() []tamper {
+	var out []tamper
+	for _, sh := range forgeShapes {
+		out = append(out, tamper{name: "ain/forged/" + sh.name, base: "ain", forge: sh.forge, weak: sh.weak})
+		out = append(out, tamper{name: "uin/forged/" + sh.name, base: "uin-any", forge: sh.forge, weak: sh.weak})
+	}
+	return out
+}()
+
 func (rs *rigState) keyOf(addr common.Address) *txgen.Account {
 	for _, a := range rs.gen.Accts {
 		if a.Addr == addr {
@@ -386,6 +474,19 @@ func (rs *rigState) baseTx(base string, token common.Address, inflate *big.Int, 
 		}
 		return nil
 	}
+	o := rs.spendOpts(base, token, inflate)
+	if o == nil {
+		return nil
+	}
+	if pre != nil {
+		return g.UtxoSpendPre(*o, pre)
+	}
+	return g.UtxoSpend(*o)
+}
+
+// spendOpts draws the options of a hidden spend of the requested shape (nil: nothing to spend).
+func (rs *rigState) spendOpts(base string, token common.Address, inflate *big.Int) *txgen.SpendOpts {
+	g := rs.gen
 	ws := rs.walletsWith(token)
 	if len(ws) == 0 {
 		return nil
@@ -406,10 +507,7 @@ func (rs *rigState) baseTx(base string, token common.Address, inflate *big.Int, 
 	default:
 		o.ToAccount = g.T.Bool(1, 2)
 	}
-	if pre != nil {
-		return g.UtxoSpendPre(o, pre)
-	}
-	return g.UtxoSpend(o)
+	return &o
 }
 
 // tamperToken picks the token the next tampered transaction moves: the coin,
@@ -417,7 +515,7 @@ func (rs *rigState) baseTx(base string, token common.Address, inflate *big.Int, 
 // that the needed base transaction can be built from.
 func (rs *rigState) tamperToken(tt *kernel.Tape, tm tamper) common.Address {
 	g := rs.gen
-	if tm.lkcOnly || (tm.pre == nil && tm.base != "ain") || !tt.Bool(1, 3) {
+	if tm.lkcOnly || (tm.pre == nil && tm.forge == nil && tm.base != "ain") || !tt.Bool(1, 3) {
 		return txgen.Native
 	}
 	var cands []common.Address
@@ -448,7 +546,7 @@ func (rs *rigState) tamperRound() {
 	c, g := rs.c, rs.gen
 	tt := c.Tape.Fork("tamper")
 	n := 1 + tt.Int(3)
-	all := append(append([]tamper(nil), catalogue...), preCatalogue...)
+	all := append(append(append([]tamper(nil), catalogue...), preCatalogue...), forgeCatalogue...)
 	for i := 0; i < n && !c.Failed(); i++ {
 		g.Reset()
 		// only variants whose base transaction can be built now
@@ -473,6 +571,13 @@ func (rs *rigState) tamperRound() {
 				tm = preCatalogue[tt.Int(len(preCatalogue))]
 			}
 		}
+		if tt.Bool(1, 3) {
+			// hand-built RingCT stages (account-input ones need no hidden funds)
+			tm = forgeCatalogue[tt.Int(len(forgeCatalogue))]
+			if !haveHidden && tm.base != "ain" {
+				tm = forgeCatalogue[2*tt.Int(len(forgeCatalogue)/2)]
+			}
+		}
 		token := rs.tamperToken(tt, tm)
 		rs.unit = g.UnitOf(token)
 		if rs.unit == nil {
@@ -484,7 +589,45 @@ func (rs *rigState) tamperRound() {
 		}
 		var bad types.Tx
 		var atk *txgen.Item
+		var hiddenDelta *big.Int // value model of the offered transaction (nil: not computed)
+		ring := ""
 		switch {
+		case tm.forge != nil:
+			f := tm.forge(tt)
+			if tm.base == "ain" {
+				it := rs.baseTx("ain", token, nil, nil)
+				if it == nil {
+					c.Probe("tamper-no-base/ain")
+					continue
+				}
+				tx, val, err := g.ForgeAccToUtxo(it, f)
+				if err != nil {
+					c.Probe("tamper-not-applicable/" + tm.name)
+					continue
+				}
+				bad, hiddenDelta = tx, val.HiddenOut
+			} else {
+				o := rs.spendOpts(tm.base, token, nil)
+				if o == nil {
+					c.Probe("tamper-no-base/" + tm.base)
+					continue
+				}
+				// the ring size decides which signature scheme has to hold the lists together
+				o.RingSize = []int{1, 2, 3, 5}[tt.Pick(2, 3, 2, 1)]
+				if len(g.L.Hidden[token]) < 2 {
+					o.RingSize = 1
+				}
+				ring = "mlsag"
+				if o.RingSize == 1 {
+					ring = "short-ring"
+				}
+				it, val := g.UtxoSpendForged(*o, f)
+				if it == nil {
+					c.Probe("tamper-not-applicable/" + tm.name)
+					continue
+				}
+				bad, hiddenDelta = it.Tx, new(big.Int).Sub(val.HiddenOut, val.HiddenIn)
+			}
 		case tm.pre != nil:
 			applied := false
 			it := rs.baseTx(tm.base, token, nil, func(tx *types.UTXOTransaction, dests []types.DestEntry) {
@@ -504,6 +647,9 @@ func (rs *rigState) tamperRound() {
 				continue
 			}
 			bad = it.Tx
+			if tm.name == "uin/presigned/hidden-output-raised" {
+				hiddenDelta = it.HiddenDelta() // the outputs were scanned back after the change
+			}
 		case tm.mutate == nil:
 			// built as an attack from the start: the input is claimed to hold more than it does
 			surplus := new(big.Int).Mul(big.NewInt(int64(1+tt.Int(100000))), txgen.Ether)
@@ -594,12 +740,49 @@ func (rs *rigState) tamperRound() {
 		if tm.name == "uin/inflated-input-short-ring" {
 			key = "inflation/short-ring-pseudo-out-unbound"
 		}
-		stop := false
-		if errPool == nil {
-			stop = c.Violate("inflation", key, "mempool accepted an unbalanced confidential transaction (%s%s): %s", flavour, tm.name, describeUtxo(bad, rs.unit)) || stop
+		if tm.forge != nil && strings.Contains(tm.name, "surplus-pseudo-out") {
+			// one root cause (the number of pseudo-outs is never compared with the
+			// number of hidden inputs), three paths that could catch it
+			key = "inflation/surplus-pseudo-out-counted-as-input/account-input"
+			if tm.base != "ain" {
+				key = "inflation/surplus-pseudo-out-counted-as-input/hidden-input-" + ring
+			}
 		}
-		if accepted {
-			stop = c.Violate("inflation", key, "CheckBlock accepted a block carrying an unbalanced confidential transaction (%s%s): %s", flavour, tm.name, describeUtxo(bad, rs.unit)) || stop
+		if tm.weak {
+			// nothing about amounts or proofs is wrong: refusal is not demanded
+			if accepted {
+				diff, committed, err := rs.supplyEffect(bad, token, hiddenDelta)
+				if err != nil {
+					c.HarnessTrouble("scratch replica: %v", err)
+					return
+				}
+				if eff, changed := effectString(diff); committed && changed {
+					if c.Violate("conservation", "supply/changed-by-misshapen-confidential-transaction/"+tm.name, "a block carrying a confidential transaction with a misshapen list (%s%s) was accepted and committing it on a scratch replica changes the supply: %s", flavour, tm.name, eff) {
+						return
+					}
+				}
+				c.Probe("misshapen-accepted-and-conserving/" + tm.name)
+			}
+			continue
+		}
+		stop := false
+		if errPool == nil || accepted {
+			effect := ""
+			if hiddenDelta != nil && !c.IsKnown(key) {
+				// show what it does to the supply: commit it on a scratch replica
+				if diff, committed, err := rs.supplyEffect(bad, token, hiddenDelta); err == nil && committed {
+					eff, _ := effectString(diff)
+					effect = "; committed on a scratch replica: " + eff
+				} else if err == nil {
+					effect = "; a scratch replica refused to commit it"
+				}
+			}
+			if errPool == nil {
+				stop = c.Violate("inflation", key, "mempool accepted an unbalanced confidential transaction (%s%s): %s%s", flavour, tm.name, describeUtxo(bad, rs.unit), effect) || stop
+			}
+			if accepted {
+				stop = c.Violate("inflation", key, "CheckBlock accepted a block carrying an unbalanced confidential transaction (%s%s): %s%s", flavour, tm.name, describeUtxo(bad, rs.unit), effect) || stop
+			}
 		}
 		if stop {
 			return
@@ -624,7 +807,19 @@ func describeUtxo(tx types.Tx, unit *big.Int) string {
 	if !ok {
 		return ""
 	}
-	s := fmt.Sprintf("token %s unit %v fee %v", tokName(u.TokenID), unit, u.Fee)
+	nOut, nIn := 0, 0
+	for _, o := range u.Outputs {
+		if _, ok := o.(*types.UTXOOutput); ok {
+			nOut++
+		}
+	}
+	for _, in := range u.Inputs {
+		if _, ok := in.(*types.UTXOInput); ok {
+			nIn++
+		}
+	}
+	s := fmt.Sprintf("token %s unit %v fee %v; %d hidden outputs, %d output commitments, %d encrypted amounts, %d range proofs; %d hidden inputs, %d pseudo-outs", tokName(u.TokenID), unit, u.Fee,
+		nOut, len(u.RCTSig.OutPk), len(u.RCTSig.EcdhInfo), len(u.RCTSig.P.Bulletproofs), nIn, len(u.RCTSig.P.PseudoOuts))
 	if a := ain(u); a != nil {
 		s += fmt.Sprintf(" account-input %v", a.Amount)
 	}
